@@ -566,12 +566,24 @@ pub fn deliver(cfg: &WCfg, icmp: &[u8], responder: IpAddr, rng: &mut Rng) -> Vec
     if cfg.v6 {
         return icmp.to_vec();
     }
-    let mut d = vec![0x45, rng.next() as u8];
-    d.extend(((20 + icmp.len()) as u16).to_be_bytes());
+    // the responder's own IPv4 header: now and then with options (RFC 791: security labels, NOP padding,
+    // record route, …) — legal, and the ICMP message then starts at IHL*4, not at 20
+    let words = if rng.chance(1, 4) { rng.range(1, 10) as usize } else { 0 };
+    let hl = 20 + 4 * words;
+    let mut d = vec![0x40 | (hl / 4) as u8, rng.next() as u8];
+    d.extend(((hl + icmp.len()) as u16).to_be_bytes());
     d.extend(rng.bytes(2));
     d.extend([0, 0, rng.range(1, 255) as u8, 1, 0, 0]);
     d.extend(octets(responder));
     d.extend(octets(cfg.src));
+    for w in 0..words {
+        // NOP padding, a 4-octet option of an arbitrary class (type, length 4, two octets of data), or end-of-list
+        match (w + rng.below(3) as usize) % 3 {
+            0 => d.extend([1, 1, 1, 1]),
+            1 => { d.extend([0x82, 4]); d.extend(rng.bytes(2)); }
+            _ => d.extend([1, 1, 1, 0]),
+        }
+    }
     let ck = !ones_sum(&[&d]);
     d[10..12].copy_from_slice(&ck.to_be_bytes());
     d.extend_from_slice(icmp);
